@@ -1,13 +1,16 @@
 package checks
 
 import (
+	"bytes"
 	"context"
 	"errors"
+	"regexp"
 	"runtime"
 	"strconv"
 	"strings"
 
 	"github.com/ddddddO/gtree"
+	"github.com/fatih/color"
 
 	"gtverif/gen"
 	"gtverif/model"
@@ -106,6 +109,8 @@ func realCounts(c *Ctx, doc string, merged model.Forest, exts []string, hasExt b
 	return perRoot, nil, true
 }
 
+var sgrSeq = regexp.MustCompile("\x1b\\[[0-9;]*m")
+
 func evalC09(c *Ctx, cs *Case) {
 	f := gen.FromDepths(cs.Depths, cs.Names)
 	merged := model.Merge(f)
@@ -127,6 +132,20 @@ func evalC09(c *Ctx, cs *Case) {
 		bopts := BranchOptions(bi)
 		wantReport := model.DryRunReport(merged, BranchTuples[bi], exts)
 		wantBlocks := model.DryRunBlocks(merged, BranchTuples[bi], exts)
+		// a third of the (non-hostile) cases run with colour switched on, as on a terminal: the
+		// report with the colour sequences removed must be the same report
+		colorOn := !hostile && (int(cs.Seed%3)+ei)%3 == 0
+		oldNoColor := color.NoColor
+		color.NoColor = !colorOn
+		plain := func(b []byte) string {
+			if !colorOn {
+				return string(b)
+			}
+			if bytes.Contains(b, []byte("\x1b[")) {
+				c.Count("reports_with_colour_sequences", 1)
+			}
+			return sgrSeq.ReplaceAllString(string(b), "")
+		}
 		if realOK && realErr == nil {
 			// the model's counts must be what the real Mkdir created (two real code paths compared)
 			for _, root := range merged {
@@ -174,9 +193,9 @@ func evalC09(c *Ctx, cs *Case) {
 					det["real_err"] = errStr(realErr)
 					c.Violation(cs, "dryrun.accept-differs-from-real", "", det)
 				case o.Err == nil && !hostile:
-					ok := string(o.Out) == wantReport
+					ok := plain(o.Out) == wantReport
 					if massive {
-						ok = coverBlocks(string(o.Out), wantBlocks)
+						ok = coverBlocks(plain(o.Out), wantBlocks)
 					}
 					if !ok {
 						det["want"] = trunc(wantReport, 1500)
@@ -262,12 +281,13 @@ func evalC09(c *Ctx, cs *Case) {
 					c.Violation(cs, "dryrun.fs-changed", "", det)
 				case ro.Panic == nil && (o.Err == nil) != !nameReject(ro.Err):
 					c.Violation(cs, "dryrun.accept-differs-from-real", "", det)
-				case o.Err == nil && !hostile && string(rep) != model.DryRunReport(mr, BranchTuples[bi], exts):
+				case o.Err == nil && !hostile && plain(rep) != model.DryRunReport(mr, BranchTuples[bi], exts):
 					det["want"] = model.DryRunReport(mr, BranchTuples[bi], exts)
 					c.Violation(cs, "dryrun.report-differs", "", det)
 				}
 			}
 		}
+		color.NoColor = oldNoColor
 		// --- (d) the SAME programmatic tree object: dry run first, then the real run on it. The
 		// dry run must predict what the real run of that very tree then creates.
 		for ri, root := range f {
@@ -312,10 +332,10 @@ func evalC09(c *Ctx, cs *Case) {
 				before := j.Snap()
 				cs.Entry = "Verify/Walk[stray dryrun]"
 				vo := Guard(func() error {
-					return gtree.VerifyFromMarkdown(strings.NewReader(doc), gtree.WithTargetDir(j.Target), gtree.WithDryRun())
+					return gtree.VerifyFromMarkdown(MDReader(doc), gtree.WithTargetDir(j.Target), gtree.WithDryRun())
 				})
 				wo := Guard(func() error {
-					return gtree.WalkFromMarkdown(strings.NewReader(doc), func(*gtree.WalkerNode) error { return nil }, gtree.WithDryRun(), gtree.WithTargetDir(j.Target))
+					return gtree.WalkFromMarkdown(MDReader(doc), func(*gtree.WalkerNode) error { return nil }, gtree.WithDryRun(), gtree.WithTargetDir(j.Target))
 				})
 				diff := mon.Diff(before, j.Snap())
 				j.Remove()
